@@ -91,7 +91,7 @@ CHECKS["C16"] = ("fault_enumeration",
 CHECKS["C17"] = ("fault_enumeration",
  "exhaustive enumeration of single-byte corruptions and truncations of multi-line documents over every transport and read-chunk pattern, and of offending tokens x contexts for queries, against a position oracle",
  "Well-formed multi-line JSON documents of 3 kinds x 7 sizes around the 16 KiB window x {LF, CRLF, CR} x 0..3 preceding valid documents are corrupted by ONE byte at every byte (small documents) or at every byte around each buffer boundary; each corrupted stream goes through 8 transports (regular file; pipe whole and in chunks of 1, 7, 512, 4096, 16384, 16385), as values and again token by token under --stream. The true offending byte comes from encoding/json run by the harness on the same bytes; the reported line must be its 1-based line, the excerpt a piece of that line covering it, the caret under it in terminal columns. Truncations under default/--stream/-s/--slurpfile. Query errors: 47 offending token kinds (incl. tokens glued to ones the lexer looks ahead for) x 15 contexts x 4 continuations as argument and -f file, checked for ParseError Offset/Token, line and caret.",
- "encoding/json's SyntaxError.Offset is the position oracle for JSON; go-runewidth is the column oracle. YAML positions come from the YAML library and are only checked for presence.",
+ "encoding/json's SyntaxError.Offset is the position oracle for JSON; go-runewidth is the column oracle. YAML positions come from the YAML library; they are checked metamorphically (14 malformed templates x 5 filler lengths x 5 fillers: multi-byte fillers of the same display width must not move the reported line, message or the character under the caret).",
  "DESIGN.md §4 C17")
 CHECKS["C18"] = ("model_checking",
  "exhaustive enumeration of module trees, definition profiles and file-system layouts, each compiled with the real loader and compared, probe by probe, with a resolution model (textual inclusion with namespacing; first-match directory lookup)",
